@@ -14,6 +14,8 @@ import astload
 from core import Fn, Target, VC
 import frame
 import functional
+import generators
+import learners
 
 
 def T(*a, **k):
@@ -483,28 +485,53 @@ def dataset_const_targets():
     return ts
 
 
-def lint_vcs():
-    """the static scan as a bounded stand-in (a lint: run, reported, a new unclassified hit fails it, never counted as proof)"""
-    import scan
-    hits = scan.scan()
-    recs, unknown = scan.classify(hits)
-    from collections import Counter
-    summary = ', '.join(f'{n} x {k[0]} [{k[1]}]' for k, n in sorted(Counter((r['kind'], r['class']) for r in recs).items()))
-    about = ('LINT (not a proof): every `mutable` member, variable with static storage duration and const_cast in include/ + src/ is '
-             'classified (covered by a frame proof / per-call / per-task / synchronisation / init-once / named unchecked): ' + summary)
-    if unknown:
-        about += ' -- UNCLASSIFIED: ' + '; '.join(f'{r["file"]}:{r["line"]} {r["kind"]} {r["name"]}: {r["text"]}' for r in unknown[:8])
-    v = VC('static_scan/shared_mutable_state_classified', '(assert true)' if unknown else '(assert false)', about=about, solvers=['z3-new', 'z3'])
-    v.bound = 'token-level scan of the library sources (supporting fact, not a proof)'
-    v.note = '; '.join(f'{r["file"]}:{r["line"]} {r["name"]} [{r["class"]}] {r["why"]}' for r in recs if r['kind'] == 'mutable member')
-    return [v]
+class LintVC(VC):
+    """the static scan as a bounded stand-in (a lint: run, reported, never counted as proof).  It cannot refute anything: every hit
+    classified -> the (trivial) obligation is discharged; a hit the allow-list does not know, or a translation unit clang-query
+    could not read -> UNKNOWN = undecided (exit 2, "unclassified shared mutable state: <where>"), never a pass.  The scan runs inside
+    verify(), i.e. in a worker next to the CBMC targets, not while the spec is built."""
+
+    def __init__(self, tier):
+        super().__init__('static_scan/shared_mutable_state_classified', '(assert false)', solvers=['z3-new', 'z3'],
+                         about='LINT (not a proof): every `mutable` member, non-constexpr function-local static, non-constexpr namespace-scope variable / static data '
+                               'member and const_cast of include/ + src/ (clang-query over clang\'s AST) is in the classified allow-list of specs/C18/scan.py')
+        self.tier = tier
+        self.bound = ('AST scan (clang-query) of the library sources: supporting fact, not a proof; quick tier: src TUs pre-filtered by the tokens mutable / static / '
+                      'thread_local, thorough tier: every TU')
+
+    def verify(self, cross=False):
+        import scan
+        from collections import Counter
+        try:
+            hits, problems = scan.scan_ast(self.tier)
+        except Exception as e:      # noqa (a lint must not crash the check: undecided)
+            hits, problems = [], [f'scan failed: {e}']
+        recs, unknown = scan.classify_ast(hits)
+        self.about += ': ' + ', '.join(f'{n} x {k[0]} [{k[1]}]' for k, n in sorted(Counter((r['kind'], r['class']) for r in recs).items()))
+        self.note = '; '.join(f'{r["file"]}:{r["line"]} {r["name"]} [{r["class"]}] {r["why"]}' for r in recs if r['kind'] == 'mutable member')
+        problem = ''
+        if unknown:
+            problem = 'unclassified shared mutable state: ' + '; '.join(f'{r["file"]}:{r["line"]} {r["kind"]} {r["name"]}' for r in unknown[:8])
+        elif problems:
+            problem = 'translation units the scan could not read: ' + '; '.join(problems[:4])
+        elif not hits:
+            problem = 'the scan found nothing at all (vacuous)'
+        if not problem:
+            return super().verify(cross=False)
+        return {'id': self.name, 'description': self.about + ' -- ' + problem, 'target': self.group, 'status': 'UNKNOWN', 'backend': 'clang-query', 'location': {},
+                'answers': {'static scan': problem}, 'seconds': {}}
+
+
+def lint_vcs(tier='quick'):
+    return [LintVC(tier)]
 
 
 def build(tier):
+    gen_targets, gen_info = generators.targets(tier)
     targets = (solver_targets() + iterator_targets() + objective_targets() + loss_targets(tier) + tune_targets() + wlearner_targets()
-               + dataset_const_targets() + functional.targets())
+               + dataset_const_targets() + functional.targets() + gen_targets + learners.targets())
     return {
-        'targets': targets, 'vcs': [], 'bounded': lint_vcs(),
+        'targets': targets, 'vcs': [], 'bounded': lint_vcs(tier),
         'decided': functional.DECIDED + [
             'METHOD: two threads race on an object only if at least one of them writes it.  Every target is the REAL function (clang AST -> C) under a DFCC contract whose assigns clause is the complete list of what it may write; CBMC checks every store of the extracted text and every footprint write (one per possibly-mutating mention of an erased object, read off clang\'s const analysis) against it, on every path, for all inputs.  C struct layouts are generated from the class definitions on every run (bases flattened, `mutable` recorded), so a member added to a class is part of the frame without touching the spec; pointer / unique_ptr / reference members are C pointers to separate objects (C++ constness does not reach through them, the frame proof does)',
             'SOLVER shared by all fold / trial tasks: solver_t::minimize() const, solver_t::done() const, solver_t::make_lsearch() const and the bodies do_minimize() const of gd, cgd (all 10 beta formulas), lbfgs (the default solver of ml::params_t), quasi (all 5 update formulas), sgm, cocob, osga, ellipsoid, pgm / dgm / fgm, asga2 / asga4, pdsgm (sda / wda) -- 30 of the 37 registered solver ids -- write NOTHING of the solver object and NOTHING of the two line-search prototypes it owns (m_lsearch0 / m_lsearchk: unique_ptr members, writable through a const solver as far as C++ is concerned); make_lsearch() returns two fresh clones, different from the prototypes, and sets the parameters on the clones; the history-carrying state (lsearch_t::m_last_step_size [mutable], the lsearch0 / lsearchk objects\' own members) that lsearch_t::get() const writes belongs to that per-call pair; what else is written is the caller\'s function object (mutable evaluation counters), states and vectors',
@@ -515,12 +542,15 @@ def build(tier):
             'TUNING RESULT shared by the (trial, fold) tasks of ml::tune: result_t::store(trial, fold, ..) writes only cell (trial, fold) of m_values and index trial * folds + fold of m_extras (ghost cell / ghost index; the index arithmetic is uninterpreted, injectivity of (trial, fold) -> index is C13); closest_trial / extra / log_path const write nothing; the task lambda writes the result only through store at its own slot (old_trials + index / folds, index % folds), and the only m_extras slot it READS is (closest_trial, fold) with closest_trial < old_trials (a completed batch) or its own slot -- so no task reads a slot another running task writes',
             'FITTED WEAK LEARNERS: the per-sample predict operators of stump / affine / hinge (both sides) / table and dtree_wlearner_t::do_predict const write only the caller\'s outputs view, nothing of the learner',
             'WEAK LEARNER FITTING (runs on a per-task clone; its select_iterator_t::loop chunk tasks share the local vector `caches`): the chunk tasks of stump / affine / hinge do_fit and of the four table learners (dense, kbest, ksplit, dstep; sclass and mclass loops) write only caches[tnum], nothing of the learner; gradients and samples are only read',
+            'GENERATOR STACK (every generator a dataset owns is shared by all tasks): the classes of the generator_t hierarchy, their const / static member functions with a body and every lambda written inside one are ENUMERATED FROM THE AST on every run (specs/C18/generators.py: src/generator.cpp + src/generator/*.cpp; currently 20 classes -- generator_t, base_elemwise / base_pairwise, elemwise_generator_t<gradient | sclass / mclass / scalar / struct identity>, pairwise_generator_t<product>, their computers and input bases -- 100 const functions in 369 instantiations); each is put under a GENERATED frame contract: nothing of *this (struct layout flattened from the class definitions), nothing of the datasource it points to, no global and no function-local static -- INCLUDING the dynamic initialisation of one (`static const auto kernel = make_kernel3x3(m_type)`) -- is written; assigns = parameters handed by non-const reference (+ for a closure run synchronously inside the call: its by-reference captures of non-const locals, e.g. `column` of flatten).  Member calls on a generator through a const access path are reads (the callee is in the enumerated set), through a non-const path writes; an unmapped call on a modelled object is exit 2, so the induction over the call tree is closed.  QUICK tier: one family representative each (gradient: process + closure, do_select(struct) + closure, flatten + closure, select_struct<>, flatten<>; pairwise product: the same six; generator_t: iterate + closure, select, should_drop) = 20 targets; THOROUGH tier: every (class, source location) = 135 targets (all extract and prove; `--tier thorough --only gen_` 96 s on a loaded machine) (one instantiation per member template / generic closure: the other instantiations differ only in erased scalar types)',
+            'FITTED MODELS: learner_t::predict (both overloads) const, learner_t::evaluate const, linear_t::do_predict const, gboost_model_t::do_predict const write nothing of the model (layout from the class definitions, bases flattened); the CHUNK TASKS evaluate / linear do_predict hand to iterator.loop (run by the workers of the dataset pool) are under the "concurrent writers write disjoint slots" contract GENERATED FROM THE CAPTURE LIST of the current source (specs/C18/learners.py): a by-reference capture may be written only at element nv_g (ghost, any) with begin <= nv_g < end of the task\'s own tensor_range_t parameter (`<capture>.slice(range)`, `<capture>.tensor(k).slice(range)`); any other possibly-mutating mention of a by-reference capture (assignment, resize, a slice of another range, a non-const call) is an unconditional write and is refuted; const captures and views of const data get no assigns entry at all; the enclosing function calls the extracted task through a stub generated from the same capture list (hooks.lambda_stub_hook), so a newly captured variable is decided',
             'LEMMA ("bit-identical to the same call executed alone", reduced to the frames above; not a separate proof): let f be one of the const functions above, called on a shared object S with its own arguments A.  By the frame of f (and of everything else the library runs concurrently on S: the targets of this spec), no concurrently running call writes S or A\'s inputs; the callees f reaches are the same sequential code; therefore every read f performs returns the value it would return if f ran alone, and f -- sequential, deterministic C++ without reads of clocks, random devices or addresses -- computes the same outputs bit for bit.  Assumes: (a) the frame proofs cover every function that runs concurrently on S (they cover the library\'s own sharing listed here, not arbitrary user code); (b) the erased callees write only what they are handed (assumption list); (c) the disjointly written slots really are used by one running task at a time (C17, monitor semantics); (d) no data-dependent non-determinism inside f (uninitialised reads, iteration over pointer-keyed containers): not checked',
         ],
         'not_decided': [
             'interleaving semantics itself: the pool\'s mutex / condition-variable protocol, that two tasks running at the same time have different tnum, that map() returns only after every task finished (C17 proves the sequential protocol under monitor semantics; the schedule quantifier stays open)',
             'schedule independence of the REDUCTION: sum_reduce adds the per-thread accumulators in index order, but which samples went into which accumulator depends on the schedule: floating-point re-association (the property\'s 1e-5 clause) is not decided',
-            'the remaining solver bodies (gradient sampling x4, rqb, fpba1 / fpba2, the penalty / augmented-Lagrangian wrappers), lsearch0 / lsearchk implementations (they run on the per-call clones), program::solver_t; generator_t implementations (flatten / select of ~10 generator classes: assumed const-clean), dataset_t::targets / select(target) (generic visitor lambdas, not extractable), datasource_t, scalar_stats_t::scale, splitter_t::split and tuner_t::optimize (run on the calling thread, before / around the parallel section), the sequential parts of wlearner fit (run on per-task clones), cache_flatten / cache_targets (non-const, run before sharing), linear::evaluate / gboost::evaluate / linear_t::do_predict chunk tasks (rows of caller-local tensors)',
+            'the remaining solver bodies (gradient sampling x4, rqb, fpba1 / fpba2, the penalty / augmented-Lagrangian wrappers), lsearch0 / lsearchk implementations (they run on the per-call clones), program::solver_t (NOT added in this round: the specs/C02 / C03 / C07 / C04 extraction tables were not re-used for frame targets); dataset_t::targets / select(target) (generic visitor lambdas, not extractable), datasource_t, scalar_stats_t::scale, splitter_t::split and tuner_t::optimize (run on the calling thread, before / around the parallel section), the sequential parts of wlearner fit (run on per-task clones), cache_flatten / cache_targets (non-const, run before sharing), linear::evaluate / gboost::evaluate free functions (src/linear/util.cpp, src/gboost/util.cpp: rows of caller-local tensors)',
+            'generator stack: the other instantiations of each member template / generic closure (quick AND thorough tier verify one instantiation per source location; they differ in the scalar type of the erased sample iterator only -- not checked mechanically); the non-const members (fit, do_fit, drop / undrop, shuffle / unshuffle, allocate: outside the const interface, run before sharing); generator_t::all() (init-once factory singleton: the lint) and base_pairwise_generator_t::make_pairwise (static helper of the non-const fit): skipped by name in generators.SKIP; datasource_t::visit_inputs / loop_samples / the sample iterators (erased higher-order callees: assumed to call only the closure they are handed); user-defined generators',
             'loggers: every logger call is dropped from the extracted text (per-task file loggers are made inside the task; what a shared std::ostream does under concurrent writes is outside the model)',
             'user code: function objects, callbacks and custom tuners / generators supplied by a caller',
             'determinism clause (d) of the lemma; ThreadSanitizer-style dynamic evidence',
@@ -528,14 +558,16 @@ def build(tier):
         'assumptions': functional.ASSUMPTIONS + [
             'erased callees: a function that only receives objects of owner / view types (tensors, Eigen, std::vector / string / map / any, feature_t, scalar_stats_t, cluster_t, parameter_t ...: value semantics, deep constness) writes only what it is handed by non-const reference or pointer (charged at the call) or state with static storage duration (the lint: only init-once factory singletons exist); this covers Eigen, the STL, tensor_t members, linear::predict, store_stats, resize_and_map, the loss kernels tloss::value / vgrad / error, make_range, make_file_logger',
             'a write is charged where the mutable access path is created (non-const member call, binding to a non-const reference, address-of, assignment, ++, a cast that drops const); a view of const data (tensor_cmap_t, Eigen::Map<const T>) cannot be written through whatever overload clang picked; the view object itself only changes by an assignment written in the function',
-            'virtual const callees used through an assumed frame: lsearch0_t::clone / lsearchk_t::clone return a new object (every implementation is std::make_unique<T>(*this)); generator_t::flatten / select const read the generator; wlearner_t::split const (do_split of the learner) reads the learner; dataset_t::check throws or returns; dataset_t::targets / flatten / select as used by the iterators write only the buffer handed in (flatten and select(feature) are proved here, targets and select(target) are assumed)',
+            'virtual const callees used through an assumed frame: lsearch0_t::clone / lsearchk_t::clone return a new object (every implementation is std::make_unique<T>(*this)); generator_t::flatten / select const read the generator (no longer only assumed for the library\'s own generators: targets gen_*); wlearner_t::split const (do_split of the learner) reads the learner; dataset_t::check throws or returns; dataset_t::targets / flatten / select as used by the iterators write only the buffer handed in (flatten and select(feature) are proved here, targets and select(target) are assumed)',
             'virtual NON-const callees lsearch0_t::get / lsearchk_t::get write their own object (whole footprint) and the state handed in; gboost::accumulator_t::update writes its own object',
             'the function object, solver_state_t values, vectors and loggers of a minimize() call belong to the calling thread (property: "each with its own function object"): erased or assigned wholesale',
+            'generator targets: erased higher-order callees (datasource_t::visit_inputs, loop_samples, std::make_tuple of a closure) invoke only the closure they are handed, on the calling thread; every closure written in a generator method is a target of its own; a closure object called as `op(values, storage)` writes only through what it is handed (charged at the mention); the datasource a generator points to is only read by the const members called on it (datasource_t is not under contract); a dynamic initialisation of a function-local static counts as a write whenever its initialiser is not a constant expression BY SYNTAX (literals, enumerators, operators): an init-once table with an input-free initialiser would have to be listed in the assigns clause explicitly (none exists in the targets)',
+            'learner targets: learner_t::do_predict (virtual) / critical_compatible / predict called on the learner are reads of the model (do_predict of linear_t and gboost_model_t: proved here); loss_t::error / value read the loss (targets loss_*); wlearner_t::predict const through the unique_ptr reads the weak learner (targets *_predict_op, dtree_do_predict); the targets / flatten iterator is a local of the call; that two running chunk tasks have disjoint ranges is C17 (tiling) -- the contract is per task',
             'std::function callbacks (loop callbacks, the fit callback of ml::tune) are opaque: their effects go to a ghost cell; the library\'s own callbacks are the objective-function / wlearner tasks proved separately',
             'PRECONDITIONS with their guarantors: tnum < size of every per-thread buffers vector (vectors are sized with concurrency() == pool size in the constructors; C17: tnum < pool size); 1 <= pool size <= 4096 (bound of the symbolic buffers vector in the harness; pool_t clamps to hardware_concurrency); for ml::tune\'s task: folds == result.folds() >= 1, result.add() ran before the map (C13), 0 <= index < folds * new_trials decodes to trial in [0, new_trials), fold in [0, folds) (C13 tune::thread_callback, C17 map_index), closest_trial(params, m) in [0, m) or 0 (C13 result_closest_trial), and THE FIRST BATCH OF A TUNING RUN HAS ONE TRIAL (tuner_t::optimize -- non-virtual -- starts with evaluate(.., igrids_t{avg_igrid}, ..), src/tuner.cpp; without parameter spaces ml::tune passes tensor2d_t{1, 0}): with two or more trials in a first batch every task (t >= 1, f) would read m_extras[f] while task (0, f) writes it',
             'integer * / % in the tune / result targets are uninterpreted functions (congruence only); double arithmetic is erased; arithmetic overflow is not an obligation of the frame targets (C02 / C13 / C16 / C17 own it)',
         ],
-        'trusted': ['specs/C18/frame.py: the possibly-mutating-mention analysis over clang\'s AST (const-qualification of expression types, implicit NoOp casts to const, lvalue-to-rvalue conversions) and the struct layouts generated from FieldDecls'],
+        'trusted': ['specs/C18/generators.py: the enumeration (class hierarchy by base-class closure from clang\'s records, const / static member functions with bodies, LambdaExpr nodes) and its on-disk cache keyed by a content hash of include/ + src/generator*; clang-query-14 for the lint', 'specs/C18/frame.py: the possibly-mutating-mention analysis over clang\'s AST (const-qualification of expression types, implicit NoOp casts to const, lvalue-to-rvalue conversions) and the struct layouts generated from FieldDecls'],
     }
 
 
